@@ -44,7 +44,7 @@ type Unzip struct {
 // Call the function with the arguments provided.
 func (f *Unzip) Call(s *slip.Scope, args slip.List, depth int) (result slip.Object) {
 	slip.CheckArgCount(s, depth, f, args, 1, 12)
-	data := []byte(slip.CoerceToOctets(args[0]).(slip.Octets))
+	data := octetsArg(args[0])
 
 	r, _ := gzip.NewReader(bytes.NewReader(data)) // can't fail
 	// The gzip reader panic on error and does not return an error.
